@@ -123,6 +123,12 @@ Theorem C09esis_target_half :
       (s = stS /\ replay st (firstn k evs) x = stI).
 Proof. exact (valid_logT_read g). Qed.
 
+(* no entry of txs is source-less or left over: source-less entries are only the initial ones *)
+Theorem C09esis_every_later_entry_is_sourced :
+  forall evs txs st, valid_logT g st evs txs = true ->
+    Forall (fun x : tx => exists u, snd (fst x) = Some u /\ In (snd x) (gadj g u)) txs.
+Proof. exact (valid_logT_sourced g). Qed.
+
 (* ... and with the source check the source of that entry is infectious there *)
 Theorem C09esis_source_is_infectious :
   forall evs txs st, valid_logb g SIS st evs txs = true ->
@@ -203,6 +209,7 @@ Print Assumptions C09esis_tie_example.
 Print Assumptions C09_fast_nonMarkov_SIS_full_output.
 Print Assumptions C09_fast_nonMarkov_SIS_full_output_under_the_contract.
 Print Assumptions C09esis_target_half.
+Print Assumptions C09esis_every_later_entry_is_sourced.
 Print Assumptions C09esis_source_is_infectious.
 Print Assumptions C09esis_sources_infected_earlier.
 Print Assumptions C09esis_strictly_before_recovery.
